@@ -133,16 +133,32 @@ Theorem member_of_struct_missing_field : forall hosts off a nk name asrt st t st
   fst (resolve_entry hosts off (SSel a nk name asrt) st) = Err.
 Proof. exact BridgePanic.member_of_struct_missing_field. Qed.
 
+(* ... and on a Go struct value proper (`VStruct id fs`, by its selectable fields): a name that is
+   not among them *)
+Theorem member_of_go_struct_missing_field : forall hosts off a nk name asrt st id fs st1,
+  eval hosts off a st = (Ok (VStruct id fs), st1) -> assoc name fs = None ->
+  fst (eval hosts off (SSel a nk name asrt) st) = Panic /\
+  fst (resolve_entry hosts off (SSel a nk name asrt) st) = Err.
+Proof. exact BridgePanic.member_of_go_struct_missing_field. Qed.
+
 (* ---------------- 3. where the inner evaluator panics ---------------- *)
 
 (* Every Panic of the inner evaluator starts at a sub-formula s of e whose own operation panics:
    node_panics s st0 says s is an equality test on uncomparable values (two arrays, two maps, the
-   same function: uncomparable_cases below), a selector on a struct,
+   same function: uncomparable_cases below), a selector on a time.Time or on a Go struct for a
+   name that is not one of its fields (node_panics_selector below),
    or a call whose bridge [call_value] panics (its operands having evaluated to values). *)
 Theorem eval_panic_sources : forall hosts off e st,
   fst (eval hosts off e st) = Panic ->
   exists s st0, subexpr s e /\ node_panics hosts off s st0.
 Proof. exact BridgeSources.eval_panic_sources. Qed.
+
+(* node_panics on a selector, spelled out *)
+Theorem node_panics_selector : forall hosts off a nk name asrt st,
+  node_panics hosts off (SSel a nk name asrt) st <->
+  (exists t st1, eval hosts off a st = (Ok (VTime t), st1)) \/
+  (exists id fs st1, eval hosts off a st = (Ok (VStruct id fs), st1) /\ assoc name fs = None).
+Proof. exact BridgeSources.node_panics_selector. Qed.
 
 (* conversely such a node does panic *)
 Theorem node_panics_sound : forall hosts off e st,
@@ -165,14 +181,14 @@ Theorem uncomparable_cases : forall a b, uncomparable a b = true <->
   (exists m n, a = VBuiltin m /\ b = VBuiltin n /\ bytes_eqb m n = true).
 Proof. exact BridgePanic.uncomparable_cases. Qed.
 
-(* Go's == on two function values that are not known to be the same function, on two times and
-   on two opaque values is NOT modelled: the model answers Unk exactly there *)
+(* Go's == on two function values that are not known to be the same function, on two times,
+   on two opaque values and on two struct values is NOT modelled: the model answers Unk exactly there *)
 Theorem iface_eq_unk_iff : forall a b, iface_eq a b = Unk <->
   match a, b with
   | VFunc f, VFunc g => (f =? g) = false
   | VBuiltin m, VBuiltin n => bytes_eqb m n = false
   | VFunc _, VBuiltin _ | VBuiltin _, VFunc _ => True
-  | VTime _, VTime _ | VOpaque _, VOpaque _ => True
+  | VTime _, VTime _ | VOpaque _, VOpaque _ | VStruct _ _, VStruct _ _ => True
   | _, _ => False
   end.
 Proof. exact BridgePanic.iface_eq_unk_iff. Qed.
@@ -264,6 +280,8 @@ Print Assumptions regexp_is_unmodelled.
 Print Assumptions compare_arrays_or_maps.
 Print Assumptions compare_array_literals.
 Print Assumptions member_of_struct_missing_field.
+Print Assumptions member_of_go_struct_missing_field.
+Print Assumptions node_panics_selector.
 Print Assumptions eval_panic_sources.
 Print Assumptions node_panics_sound.
 Print Assumptions binary_op_panic_iff.
